@@ -71,6 +71,15 @@ func TestVerifStandinRoundTrip(t *testing.T) {
 				fmt.Fprintf(&mainBody, "\tprintln(string(a%d[:]))\n", n)
 				fmt.Fprintf(&want, "%s\n", data)
 				literalsRun++
+				// pointer to a fully listed array; arrays that list fewer elements than they hold
+				// (zero tail), as a value and behind a pointer
+				elems := strings.TrimSuffix(strings.TrimPrefix(fmt.Sprintf("%#v", data), "[]byte{"), "}")
+				fmt.Fprintf(&src, "var q%d = &[%d]byte{%s}\n", n, l, elems)
+				fmt.Fprintf(&src, "var z%d = [%d]byte{%s}\n", n, l+5, elems)
+				fmt.Fprintf(&src, "var y%d = &[%d]byte{%s}\n", n, l+3, elems)
+				fmt.Fprintf(&mainBody, "\tprintln(string(q%[1]d[:]))\n\tprintln(len(z%[1]d), string(z%[1]d[:%[2]d]), z%[1]d[%[2]d], z%[1]d[%[2]d+4])\n\tprintln(len(y%[1]d), string(y%[1]d[:%[2]d]), y%[1]d[%[2]d], y%[1]d[%[2]d+2])\n", n, l)
+				fmt.Fprintf(&want, "%s\n%d %s 0 0\n%d %s 0 0\n", data, l+5, data, l+3, data)
+				literalsRun += 3
 			}
 			// a literal used inside a function, not only at package level
 			fmt.Fprintf(&mainBody, "\tprintln(%#v)\n", string(data))
